@@ -302,14 +302,23 @@ bool Instance::eval(const size_t argc, char* const* argv) {
         return false;
     }
     CScript::const_iterator it = script.begin();
+    // the executed operations live in a temporary script: an OP_CODESEPARATOR among them must not leave the
+    // signature-hash start (or the recorded tapscript position) of the script being debugged pointing into it
+    const CScript::const_iterator saved_begincodehash = env->pbegincodehash;
+    const uint32_t saved_codeseparator_pos = env->execdata.m_codeseparator_pos;
     try {
         while (it != script.end()) {
-            if (!StepScript(*env, it, &script)) {
+            bool ok = StepScript(*env, it, &script);
+            env->pbegincodehash = saved_begincodehash;
+            env->execdata.m_codeseparator_pos = saved_codeseparator_pos;
+            if (!ok) {
                 fprintf(stderr, "Error: %s\n", ScriptErrorString(*env->serror).c_str());
                 return false;
             }
         }
     } catch (const std::exception& ex) {
+        env->pbegincodehash = saved_begincodehash;
+        env->execdata.m_codeseparator_pos = saved_codeseparator_pos;
         // e.g. scriptnum_error (overflow / non-minimal number), like Instance::step()
         exception_string = ex.what();
         fprintf(stderr, "Error: exception thrown: %s\n", ex.what());
